@@ -14,7 +14,7 @@ extent); (CONSTRUCT) Interval::new / try_new store min(p,q), max(p,q) of the SAM
 new_unchecked is the only other construction site; (EXPR) the set predicates have their defining shape: contains = x>=min and
 x<=max, contains_interval = contains(o.min) and contains(o.max), overlaps = contains(o.min) or o.contains(min), length =
 max - min, intersection = new(max(min,min'), min(max,max')) under overlaps, clamp = max(min(x,max),min); AngleInterval::intersects =
-contains(o.start) or o.contains(start); signed_compliment_2pi = a - 2pi for a >= 0, a + 2pi otherwise."""
+contains(o.start) or o.contains(start); signed_compliment_2pi = a - 2pi for a >= 0, a + 2pi otherwise. Round 5: signed_angle = atan2(cross, dot) of its arguments on every path (no tolerance branch)."""
 NOT_DECIDED = "relations between two results beyond the zero case (rotating the first by the directed angle gives the second; Cw + Ccw = full turn), the numerical margin of AngleInterval::contains (its two-branch shape is pinned), magnitudes ~ 1e6 where % loses bits, one-ulp neighbourhoods"
 ASSUMPTIONS = ["real arithmetic with closed bounds (the property states closed ranges because rounding lands on the end points)",
                "fmod: |x % m| < m with the sign of x; atan2 in [-pi, pi]"]
